@@ -15,6 +15,7 @@ pub mod stubs;
 pub mod h_known;
 pub mod h_layout;
 pub mod h_merge;
+pub mod h_pushn;
 pub mod h_vmap;
 
 /// Registry: `<proof name> = <body path>, unwind N, stubs [from => to, ...];`
